@@ -59,14 +59,17 @@ namespace rkcommon {
         {
           TASK_T t;
 
-          LocalTask(TASK_T &&fcn) : Task(1), t(std::forward<TASK_T>(fcn)) {}
+          LocalTask(TASK_T &&fcn) : Task(1), t(std::forward<TASK_T>(fcn))
+          {
+            // the scheduler releases this task after it has run
+            m_DeleteOnCompletion = true;
+          }
 
           ~LocalTask() override = default;
 
           void ExecuteRange(enki::TaskSetPartition, uint32_t) override
           {
             t();
-            delete this;
           }
         };
 
